@@ -10,7 +10,19 @@ import (
 
 // Abstract scenario = the model's input. A table object is (name, id): id is the
 // pointer identity of the *schema.Table (the code compares both names and pointers).
+// name is the identity of the database table: 100*schema + base name. Schema 0 = the table has
+// no *schema.Schema (all stages but "schemas"); base names may repeat across schemas.
 type tbl struct{ name, id int }
+
+func qbase(q int) int   { return q % 100 }
+func qschema(q int) int { return q / 100 }
+func qname(s, n int) int { return 100*s + n }
+
+// schg: a schema-level change in front of the table changes ('S' AddSchema, 'T' DropSchema, 'U' ModifySchema).
+type schg struct {
+	kind byte
+	s    int
+}
 type fkey struct {
 	sym      int
 	tab, ref tbl
@@ -60,10 +72,19 @@ func (s *scenario) hasObjects() bool {
 }
 type scenario struct {
 	cat catalogue
+	pre []schg // schema-level changes, in front of cs in the change list handed to the planners
 	cs  []chg
 }
 
-func (t tbl) line() string  { return fmt.Sprintf("%d %d", t.name, t.id) }
+func (s *scenario) preLine() string {
+	ss := make([]string, len(s.pre))
+	for i, p := range s.pre {
+		ss[i] = fmt.Sprintf("%c%d", p.kind, p.s)
+	}
+	return strings.Join(ss, ",")
+}
+
+func (t tbl) line() string  { return fmt.Sprintf("%d %d %d", qbase(t.name), qschema(t.name), t.id) }
 func (f fkey) line() string { return fmt.Sprintf("%d %s %s", f.sym, f.tab.line(), f.ref.line()) }
 
 // caseLine is the model's input: catalogue, then the change set in input order.
@@ -71,11 +92,15 @@ func (s *scenario) caseLine() string {
 	var b strings.Builder
 	fmt.Fprintf(&b, "%d", len(s.cat.tabs))
 	for _, t := range s.cat.tabs {
-		fmt.Fprintf(&b, " %d", t)
+		fmt.Fprintf(&b, " %d %d", qbase(t), qschema(t))
 	}
 	fmt.Fprintf(&b, " %d", len(s.cat.fks))
 	for _, f := range s.cat.fks {
-		fmt.Fprintf(&b, " %d %d %d", f[0], f[1], f[2])
+		fmt.Fprintf(&b, " %d %d %d %d %d", qbase(f[0]), qschema(f[0]), f[1], qbase(f[2]), qschema(f[2]))
+	}
+	fmt.Fprintf(&b, " %d", len(s.pre))
+	for _, p := range s.pre {
+		fmt.Fprintf(&b, " %c %d", p.kind, p.s)
 	}
 	fmt.Fprintf(&b, " %d", len(s.cs))
 	ext := s.hasObjects() || s.hasTypes() // only the oracle-only stage "objects": the model has no enum types
@@ -124,6 +149,20 @@ type world struct {
 	intT  string
 	tabs  map[int]*schema.Table
 	enums map[int]*schema.EnumType
+	schs  map[[2]int]*schema.Schema
+}
+
+// sch: the *schema.Schema object of schema number s (>= 1); the current-state tables (even id) and
+// the desired-state tables (odd id) hang off two different objects of the same name, as in a diff
+// of two realms.
+func (w *world) sch(s, realm int) *schema.Schema {
+	k := [2]int{s, realm}
+	if x, ok := w.schs[k]; ok {
+		return x
+	}
+	x := schema.New(fmt.Sprintf("s%d", s))
+	w.schs[k] = x
+	return x
 }
 
 // enum returns the *schema.EnumType object with pointer id e; objects 2k and 2k+1 are the current
@@ -148,7 +187,10 @@ func (w *world) table(t tbl) *schema.Table {
 	if x, ok := w.tabs[t.id]; ok {
 		return x
 	}
-	x := schema.NewTable(tname(t.name)).AddColumns(schema.NewIntColumn("id", w.intT), schema.NewIntColumn("r", w.intT))
+	x := schema.NewTable(tname(qbase(t.name))).AddColumns(schema.NewIntColumn("id", w.intT), schema.NewIntColumn("r", w.intT))
+	if s := qschema(t.name); s > 0 {
+		x.SetSchema(w.sch(s, t.id%2))
+	}
 	w.tabs[t.id] = x
 	return x
 }
@@ -161,8 +203,24 @@ func (w *world) fk(f fkey) *schema.ForeignKey {
 
 // build makes fresh Go objects for the scenario (one *schema.Table per id).
 func (s *scenario) build(intT string) []schema.Change {
-	w := &world{intT: intT, tabs: map[int]*schema.Table{}, enums: map[int]*schema.EnumType{}}
+	w := &world{intT: intT, tabs: map[int]*schema.Table{}, enums: map[int]*schema.EnumType{}, schs: map[[2]int]*schema.Schema{}}
 	var out []schema.Change
+	for _, p := range s.pre {
+		switch p.kind {
+		case 'S':
+			out = append(out, &schema.AddSchema{S: w.sch(p.s, 1)})
+		case 'T':
+			out = append(out, &schema.DropSchema{S: w.sch(p.s, 0)})
+		case 'U':
+			m := &schema.ModifySchema{S: w.sch(p.s, 1)}
+			if intT == "int" { // MySQL: ALTER DATABASE .. CHARSET; PostgreSQL: COMMENT ON SCHEMA
+				m.Changes = append(m.Changes, &schema.ModifyAttr{From: &schema.Charset{V: "latin1"}, To: &schema.Charset{V: "utf8mb4"}})
+			} else {
+				m.Changes = append(m.Changes, &schema.ModifyAttr{From: &schema.Comment{Text: "old"}, To: &schema.Comment{Text: "new"}})
+			}
+			out = append(out, m)
+		}
+	}
 	for _, c := range s.cs {
 		if c.kind == 'P' {
 			out = append(out, &schema.AddObject{O: w.enum(c.e)})
@@ -276,10 +334,22 @@ func num(s string) int {
 	return n
 }
 
+// qnum: the identity of a real table, 100*schema + base name (a table without schema: schema 0).
+func qnum(t *schema.Table) int {
+	n := num(t.Name)
+	if n < 0 {
+		return -1
+	}
+	if t.Schema != nil {
+		return qname(num(t.Schema.Name), n)
+	}
+	return n
+}
+
 func obsFK(f *schema.ForeignKey) ofk {
 	r := -1
 	if f.RefTable != nil {
-		r = num(f.RefTable.Name)
+		r = qnum(f.RefTable)
 	}
 	return ofk{num(f.Symbol), r}
 }
@@ -298,19 +368,19 @@ func observe(c schema.Change) (ochg, bool) {
 		}
 		return ochg{}, false
 	case *schema.AddTable:
-		o := ochg{kind: 'A', t: num(c.T.Name), types: tableTypes(c.T)}
+		o := ochg{kind: 'A', t: qnum(c.T), types: tableTypes(c.T)}
 		for _, f := range c.T.ForeignKeys {
 			o.fks = append(o.fks, obsFK(f))
 		}
 		return o, true
 	case *schema.DropTable:
-		o := ochg{kind: 'D', t: num(c.T.Name), types: tableTypes(c.T)}
+		o := ochg{kind: 'D', t: qnum(c.T), types: tableTypes(c.T)}
 		for _, f := range c.T.ForeignKeys {
 			o.fks = append(o.fks, obsFK(f))
 		}
 		return o, true
 	case *schema.ModifyTable:
-		o := ochg{kind: 'M', t: num(c.T.Name)}
+		o := ochg{kind: 'M', t: qnum(c.T)}
 		for _, tc := range c.Changes {
 			switch tc := tc.(type) {
 			case *schema.AddForeignKey:
